@@ -126,7 +126,9 @@ RECURSIVE JoinSlash(_)
 JoinSlash(p) == IF p = <<>> THEN "" ELSE IF Len(p) = 1 THEN p[1] ELSE p[1] \o "/" \o JoinSlash(Tail(p))
 SiteKey(site) == CASE site = "properties" -> "properties/p" [] site = "items" -> "items" [] OTHER -> site
 (* RFC 6901: in a pointer token "~" is written ~0 and "/" is written ~1 *)
-EscName(n) == CASE n = "a/b" -> "a~1b" [] n = "a~1b" -> "a~01b" [] n = "a~b" -> "a~0b" [] n = "a~0b" -> "a~00b" [] OTHER -> n
+(* ... and a fragment is part of a URI reference: a space is written %20 and a literal "%" %25                     *)
+EscName(n) == CASE n = "a/b" -> "a~1b" [] n = "a~1b" -> "a~01b" [] n = "a~b" -> "a~0b" [] n = "a~0b" -> "a~00b"
+                [] n = "a b" -> "a%20b" [] n = "a%20b" -> "a%2520b" [] OTHER -> n
 PathSiteKey(site) == CASE site = "post.requestBody.schema" -> "post/requestBody/content/application~1json/schema" [] OTHER -> site
 RefText(r) == JoinSlash(r.path) \o (IF r.frag = <<>> THEN ""
                                    ELSE IF r.frag[1] = "#inl" THEN "#/" \o SiteKey(r.frag[2])
